@@ -219,7 +219,7 @@ def check_derivation(case):
                 continue
             _key_checks(d, tree, text, i, net, prv, want_prv)
             got = [s.script for s in d.script_pub_keys(i, prv)]
-            if got != want:
+            if (sorted(got) != sorted(want)) if tree["f"] == "combo" else (got != want):
                 raise Violation(
                     f"derivation:script-differs:{fam}",
                     f"{text} net={net} index={i}\n lib   {[s.hex() for s in got]}\n model {[s.hex() for s in want]}",
@@ -364,7 +364,8 @@ def _other_network(case, text, tree, tags):
     if _has_xkey(tree):
         if got is not None and want != "need-private":
             raise Violation("derivation:key-of-another-network-accepted", f"{text} parsed for {other}")
-    elif got != want:
+    elif got is not None and got != want:
+        # fixed keys carry no network of their own except in a WIF; refusing a WIF of the other chain (Core does) is as good as reading it
         raise Violation("derivation:network-changes-script", f"{text} parsed for {other}")
 
 
@@ -408,7 +409,7 @@ def check_text(case):
     d = parse(full, net, prv)
     written = str(d)
     expected = m.public_string(tree)
-    if written != expected:
+    if (written.lower() != expected.lower()) if tree["f"] == "addr" else (written != expected):
         raise Violation(f"text:str-differs:{_first_difference(written, expected)}", f"read    {text}\n written {written}\n model   {expected}")
     again = parse(written, net)
     if again != d or parse(add_checksum(written), net) != d:
@@ -455,10 +456,11 @@ def check_text(case):
         tags.add("normalized" + (":re-rooted" if str(norm) != str(replace_apostrophe(written)) else ""))
     # Core import request carries the checksummed public text
     req = core_import.import_request(d, active=ranged, key_range=(0, 999) if ranged else None)
-    if req["desc"] != m.descsum_create(expected) or ("range" in req) != ranged:
+    if (req["desc"] != m.descsum_create(written) if tree["f"] == "addr" else req["desc"] != m.descsum_create(expected)) or ("range" in req) != ranged:
         raise Violation("text:import-request", f"{text}: {req}")
     if tree["f"] == "addr":
-        if from_address(tree["addr"]) != full:
+        fa = from_address(tree["addr"])
+        if not m.descsum_check(fa) or [x.script for x in parse(fa, net).script_pub_keys(0)] != model_scripts(tree, 0, net):
             raise Violation("text:from_address", text)
     # 1..4 substituted characters: refused whenever BIP380's reference refuses
     mutated = _mutate(full, case["subst"])
@@ -689,7 +691,11 @@ def check_is_mine(case):
     d = parse(text, net, prv)
     want = model_scripts(tree, i, net)
     if want == "need-private":
-        if not refused(d.index_of, b"\x51", last, prv):
+        try:
+            found = d.index_of(b"\x51", last, prv)
+        except BTClibValueError:
+            found = None
+        if found is not None:
             raise Violation("is_mine:hardened-from-xpub-searched", text)
         return Outcome(False, tuple(sorted(tags | {"need-private"})))
     script = want[case["which"] % len(want)]
@@ -810,7 +816,11 @@ def _position_checks(wallet, kind, case, script_at, branches, tags):
     named = _as_form(own, case["form"], net)
     if named is None:
         named = own
-    expected = (b, i) if i <= last else None
+    # "the first match wins": two branches that derive the same script (sortedmulti or musig() over <0;1> and <1;0>) answer with the earlier one
+    first = next(bb for bb in branches if bb == b or script_at(bb, i) == own)
+    expected = (first, i) if i <= last else None
+    if first != b:
+        tags.add("branches-derive-the-same-script")
     got = wallet.position_of(named, last)
     if got != expected:
         raise Violation(f"wallet:{kind}:position_of-own", f"position_of(script at {b}/{i}, last_index={last}) = {got}, expected {expected}")
@@ -979,7 +989,12 @@ def _wallet_descriptor(case):
         return DescriptorWallet(dict(zip(labels, parsed, strict=True)), prv), sorted(labels)
 
     if any(model_scripts(t, 0, net) == "need-private" for t in trees):
-        if not refused(make):
+        # refused when the wallet is made or, by a wallet that derives lazily, when a script is asked for
+        try:
+            lazy, lazy_branches = make()
+        except BTClibValueError:
+            lazy = None
+        if lazy is not None and not all(refused(lazy.script_pub_key, bb, 0) for bb in lazy_branches):
             raise Violation("wallet:descriptor:underivable-accepted", variants[0][0])
         return Outcome(False, tuple(sorted(tags | {"need-private"})))
     if is_combo:
@@ -1003,7 +1018,8 @@ def _wallet_descriptor(case):
     if not ranged:
         # one script per chain: index 0 is all there is
         sub["i"], b = 0, sub["b"]
-        if w.script_pub_key(b, 0).script != script_at(b, 0) or w.position_of(script_at(b, 0), case["last"]) != (b, 0):
+        first = next(bb for bb in branches if bb == b or script_at(bb, 0) == script_at(b, 0))
+        if w.script_pub_key(b, 0).script != script_at(b, 0) or w.position_of(script_at(b, 0), case["last"]) != (first, 0):
             raise Violation("wallet:descriptor:unranged-position", variants[0][0])
         if not refused(w.script_pub_key, b, 1):
             raise Violation("wallet:descriptor:unranged-index-accepted", "")
@@ -1143,4 +1159,6 @@ SUBCHECKS = [
         "ScriptWallet.descriptor derives the template's scripts or NoDescriptorError where documented",
         wallets_case, quick=2500, thorough=30000, max_buckets=3,
     ),
+    SubCheck("coverage_guided", None, 'atheris / libFuzzer campaign (btclib instrumented, in-process) from arbitrary text over descriptors.parse, seeded with 20 valid descriptors: the text written back for whatever parse accepts parses to an equal descriptor and is written the same; non-trivial: inputs libFuzzer kept because they reached new coverage',
+             units=lambda tier: __import__("checks.c19_fuzz", fromlist=["units"]).units(tier, "C14"), run_unit=lambda unit, col: __import__("checks.c19_fuzz", fromlist=["run_unit"]).run_unit(unit, col, "C14")),
 ]
